@@ -121,7 +121,7 @@ class C03(Check):
             st.tuples(st.just("abandon"), st.integers(0, 5)),
         ).map(list)
         from .c08 import CHECK as C08
-        rule = st.one_of(st.none(), st.none(), C08.strategy(tier, ["sibling_refinement_shadowing"]))
+        rule = st.one_of(st.none(), st.none(), C08.strategy(tier, []))
         ex = set(exclude)
 
         def assemble(t):
